@@ -83,9 +83,9 @@ type ConnLog struct {
 	Released    int   // stream packets released so far (set after the write)
 	Releasing   int64 // stream packets whose release has begun (set before the write, atomically)
 	Served      []*ref.AEvent
-	SawClose    bool  // master read EOF / error from the client
+	SawClose    bool // master read EOF / error from the client
 	AuthSeen    bool
-	Stalled     bool  // the plan's handshake stall (Pre "stall_*") was reached: the master waits for the client to go away
+	Stalled     bool   // the plan's handshake stall (Pre "stall_*") was reached: the master waits for the client to go away
 	StreamEnded string // how the stream ended ("eof","fin","rst","short","oos","err","silent","client-closed")
 }
 
